@@ -55,7 +55,7 @@ def check(run):
     run.oblige("build:harness", binp is not None, err or "")
     if binp is None or not lib.driver_path().exists():
         return
-    n = 8000 if run.tier == "quick" else 200000
+    n = 24000 if run.tier == "quick" else 200000
     cases = host_cases(run.rng, n)
     res = urlcorr.explore(run, binp, cases)
     if res is None:
